@@ -16,6 +16,7 @@ by chaining x2y and y2z.
 """
 
 import logging
+from contextlib import nullcontext
 
 import numpy as np
 
@@ -250,23 +251,34 @@ class LinkManager(HubListener):
         # Only keep actual Data instances since only they support links for now
         data_collection = [d for d in data_collection if isinstance(d, BaseCartesianData)]
 
-        for data in data_collection:
-            links = discover_links(data, self._links | self._inverse_links)
-            comps = {}
-            for cid, link in links.items():
-                d = DerivedComponent(data, link)
-                comps[cid] = d
-            data._set_externally_derivable_components(comps)
+        # Each dataset announces the change of its derivable components on
+        # the hub. We hold these messages back until all the datasets have
+        # been updated, so that no listener can compute (and cache) results
+        # while some of the datasets still use the previous links.
+        if self.hub is None:
+            delay_callbacks = nullcontext
+        else:
+            delay_callbacks = self.hub.delay_callbacks
 
-        # Now update information about pixel-aligned data
-        for data1 in data_collection:
-            equivalent = {}
-            for data2 in data_collection:
-                if data1 is not data2:
-                    order = equivalent_pixel_cids(data2, data1)
-                    if order is not None:
-                        equivalent[data2] = order
-            data1._set_pixel_aligned_data(equivalent)
+        with delay_callbacks():
+
+            for data in data_collection:
+                links = discover_links(data, self._links | self._inverse_links)
+                comps = {}
+                for cid, link in links.items():
+                    d = DerivedComponent(data, link)
+                    comps[cid] = d
+                data._set_externally_derivable_components(comps)
+
+            # Now update information about pixel-aligned data
+            for data1 in data_collection:
+                equivalent = {}
+                for data2 in data_collection:
+                    if data1 is not data2:
+                        order = equivalent_pixel_cids(data2, data1)
+                        if order is not None:
+                            equivalent[data2] = order
+                data1._set_pixel_aligned_data(equivalent)
 
     @property
     def _links(self):
